@@ -534,7 +534,14 @@ pub fn corr(ctx: &mut Ctx) {
 /// size, which is where the evaluator's racing bound sits when a trial is only slightly better or worse than the best.
 fn deflater_contract(rng: &mut Rng, n: usize, st: &mut Stats) {
     for k in 0..n {
-        let data: Vec<u8> = if k % 3 == 0 {
+        // one input in eleven: noise that no compressor shrinks, of a length at and beyond the limits of one and of two
+        // stored blocks (65 535 bytes each) - the output then needs a header per block, and a limit just above the
+        // result's size still has to admit it
+        let big_noise = k % 11 == 7;
+        let data: Vec<u8> = if big_noise {
+            let len = *rng.choose(&[65_535usize, 65_536, 131_070, 131_071, 140_000, 200_000]);
+            rng.bytes(len)
+        } else if k % 3 == 0 {
             // runs and repeats
             let mut v = vec![];
             let len = rng.range(40, 6000) as usize;
@@ -553,6 +560,7 @@ fn deflater_contract(rng: &mut Rng, n: usize, st: &mut Stats) {
             1 => Deflaters::Libdeflater { compression: 12 },
             _ => Deflaters::Libdeflater { compression: *rng.choose(&[0u8, 1, 2, 5, 6, 8, 9, 10, 11, 12]) },
         };
+        let d = if big_noise { st.count("contract_noise_beyond_one_stored_block"); Deflaters::Libdeflater { compression: *rng.choose(&[1u8, 5, 9, 12]) } } else { d };
         let zop = matches!(d, Deflaters::Zopfli { .. });
         let Ok(full) = verif::deflate_with_bound(d, &data, None) else {
             st.fail("deflater-contract", "unbounded compression failed".into(), "{}".into());
